@@ -256,6 +256,10 @@ def _is_normal_reduce_expr(expr: IndexLambda) -> bool:
             else:
                 return False
 
+    if seen_redn_vars != set(expr.expr.bounds):
+        # a bound that subscripts no axis still multiplies the trip count
+        return False
+
     # every output axis must be accounted for (otherwise the reduction's
     # result is additionally broadcast)
     return i_out_dim == len(expr.shape)
